@@ -89,6 +89,7 @@ type Rec struct {
 	// gates
 	Gated   func(ev Event) bool // which events park their goroutine (nil: none)
 	parkedP map[int]*parked     // process id -> parked goroutine
+	evCount map[gateKey]int     // (process, label) -> events recorded
 	arrive  chan int            // process ids arriving at gates / any event (for settling)
 	last    time.Time
 	// indexer events are kept apart
@@ -103,7 +104,7 @@ type clientReg struct {
 
 func NewRec() *Rec {
 	return &Rec{procOf: map[int64]int{}, clientR: map[int]*clientReg{}, subOf: map[rpc.ID]int{}, chOf: map[uintptr]int{},
-		Counts: map[string]int{}, parkedP: map[int]*parked{}, arrive: make(chan int, 4096), last: time.Now()}
+		Counts: map[string]int{}, parkedP: map[int]*parked{}, evCount: map[gateKey]int{}, arrive: make(chan int, 4096), last: time.Now()}
 }
 
 // RegisterClient binds the calling goroutine to client process i working on subscription number sub / topic.
@@ -173,6 +174,7 @@ func (r *Rec) at(proc, label string, args ...interface{}) {
 	r.seq++
 	ev.N = r.seq
 	r.events = append(r.events, ev)
+	r.evCount[gateKey{ev.P, ev.L}]++
 	if r.Sink != nil {
 		if bz, err := json.Marshal(ev); err == nil {
 			_, _ = r.Sink.Write(append(bz, '\n'))
@@ -509,6 +511,30 @@ func (r *Rec) WaitParked(p int, l string, d time.Duration) bool {
 	deadline := time.Now().Add(d)
 	for {
 		if e := r.Parked(p); e != nil && (l == "" || e.L == l) {
+			return true
+		}
+		left := time.Until(deadline)
+		if left <= 0 {
+			return false
+		}
+		if left > 2*time.Millisecond {
+			left = 2 * time.Millisecond
+		}
+		select {
+		case <-r.arrive:
+		case <-time.After(left):
+		}
+	}
+}
+
+// WaitEvent waits until at least n events (p, l) were recorded.
+func (r *Rec) WaitEvent(p int, l string, n int, d time.Duration) bool {
+	deadline := time.Now().Add(d)
+	for {
+		r.mu.Lock()
+		c := r.evCount[gateKey{p, l}]
+		r.mu.Unlock()
+		if c >= n {
 			return true
 		}
 		left := time.Until(deadline)
